@@ -86,8 +86,12 @@ Definition arr_set (a : array) (i : N) (x : item) : option array :=
   if (i <? a_len a)%N then Some (mkArray (a_len a) (PositiveMap.add (slot_key i) x (a_map a))) else None.
 
 (* the slice as a list *)
-Definition arr_to_list (a : array) : list item :=
-  map (fun j => arr_get a (N.of_nat j)) (seq 0 (N.to_nat (a_len a))).
+Fixpoint arr_list_from (a : array) (k : nat) (i : N) : list item :=   (* out[i], out[i+1], .. (k slots) *)
+  match k with
+  | O => []
+  | S k' => arr_get a i :: arr_list_from a k' (N.succ i)
+  end.
+Definition arr_to_list (a : array) : list item := arr_list_from a (N.to_nat (a_len a)) 0.
 
 (* func bst(in, out []FormatGoodbyeItem, i int, e uint) *)
 Fixpoint bst (e : nat) (inl : list item) (out : array) (i : N) : option array :=
